@@ -160,7 +160,12 @@ class Units:
             return set(self.unit.get(e[1], set()))
         if k in ("add", "sub"):
             l, r = e[1], e[2]
-            u = self._units_of_expr(l, f, self_node) | self._units_of_expr(r, f, self_node)
+            ul, ur = self._units_of_expr(l, f, self_node), self._units_of_expr(r, f, self_node)
+            u = ul | ur
+            # a byte offset moved by a literal number of bytes: only sound next to single-byte (ASCII) characters
+            for x, y, uy in ((l, r, ur), (r, l, ul)):
+                if x[0] == "const" and x[1] not in (0, None) and ("BYTE" in uy or "SHIFT" in uy):
+                    u.add("SHIFT")
             # counting characters: n = n + 1 in a function that advances a Chars iterator
             if k == "add" and self_node is not None:
                 for x, y in ((l, r), (r, l)):
